@@ -182,6 +182,10 @@ class AnnotateLigands(Processor):
                 molecule.nodes[current]["build"] = True
                 molecule.nodes[current]["ligated"] = (lig_idx,
                                                       lig_node)
+                # the ligand node is the same residue as in the ligand molecule
+                # so it has the same template and volume
+                if "template" in ligand.nodes[lig_node]:
+                    molecule.nodes[current]["template"] = ligand.nodes[lig_node]["template"]
                 current += 1
 
     def split_ligands(self):
